@@ -243,7 +243,7 @@ package hermes
 //@   requires step: 0 < wdt && wdt <= 1
 //@   requires outn: 0 <= g.OUTN && g.OUTN <= g.N
 //@   requires drain: 0 <= g.DRAIFAK && g.DRAIFAK <= 1
-//@   requires crop: 0 <= g.AKF.Index && g.AKF.Index < 300
+//@   requires[C06] crop: 0 <= g.AKF.Index && g.AKF.Index < 300
 //@   requires[C06] soil: forall(k, 0, g.N, 0 < g.WMIN[k] && g.WMIN[k] < g.W[k])
 //@   requires[C06] caps: forall(k, 0, 21, g.CAPS[k] >= 0)
 //@   ensures[C01] balance: forall(k, 0, g.N, g.WG[1][k]*g.DZ.Num == start(k)*g.DZ.Num - g.TP[k]*wdt + F(k) - F(k+1) - D(k))
@@ -251,17 +251,17 @@ package hermes
 //@   ensures[C01] bottom: g.SICKER + g.CAPSUM == old(g.SICKER) + old(g.CAPSUM) + g.Q1[g.OUTN]*10 - l.GWAUF*10*wdt
 //@   ensures[C01] uptake: forall(k, 0, g.N, g.TP[k] == ite(subd == 1, clampTP(k), old(g.TP[k])))
 //@   ensures[C01] surface: unchanged(g.FLUSS0, l.GWAUF)
+//@   ensures[C01] draininside: g.QDRAIN >= 0 && (g.QDRAIN == 0 || (1 <= g.DRAIDEP && g.DRAIDEP <= g.N))
 //@   ensures[C01] startcopy: forall(k, 0, g.N, g.WG[0][k] == start(k))
 //@   define lowb(k) = WATER[1][k] >= min(WATER[0][k], dry(k))
-//@   ghost var capidx int
+//@   ghost var capidx int = 0-1
 //@   after stmt "WATER[1][caplayIndex] = WATER[1][caplayIndex] + g.CAPS[": ghost capidx = GWDISTindex
-//@   requires[C06] nocap: capidx == 0-1
 //@   define capped(k) = WATER[1][k] <= g.W[k]*g.DZ.Num || (0 <= capidx && capidx < 21 && WATER[1][k] <= g.W[k]*g.DZ.Num + g.CAPS[capidx]*g.DZ.Num*wdt)
 //@   ensures[C06] upper: forall(k, 0, g.N, g.WG[1][k] <= g.W[k] || (0 <= capidx && capidx < 21 && g.WG[1][k] <= g.W[k] + g.CAPS[capidx]*wdt))
 //@   ensures[C06] lower: forall(k, 0, g.N, g.WG[1][k]*g.DZ.Num >= min(start(k)*g.DZ.Num - g.TP[k]*wdt, dry(k)))
 //@   ensures[C06,C08] uptakecap: subd == 1 ==> forall(k, 0, g.N, g.TP[k] <= max(0.0, (old(g.WG[0][k]) - g.WMIN[k])*g.DZ.Num))
 //@   ensures[C08] uptakesign: forall(k, 0, g.N, old(g.TP[k]) >= 0 ==> g.TP[k] >= 0)
-//@   safety[C01,C06] div index
+//@   safety[C06] div index
 //@ loop Water#1
 //@   invariant range: 0 <= \i && \i <= g.N
 //@   invariant w0: forall(j, 0, \i, w0(j))
@@ -277,6 +277,7 @@ package hermes
 //@   invariant a: a == g.Q1[\i-1] && a >= 0
 //@   invariant done: forall(j, 0, \i-1, bal(j))
 //@   invariant qd: \i <= g.DRAIDEP ==> g.QDRAIN == 0
+//@   invariant[C01] qdin: g.QDRAIN >= 0 && (g.QDRAIN == 0 || (1 <= g.DRAIDEP && g.DRAIDEP < \i))
 //@   invariant[C06] low: forall(j, 0, \i-1, lowb(j))
 //@   invariant w0s: forall(k, 0, g.N, w0s(k))
 //@ loop Water#4
@@ -350,17 +351,17 @@ package hermes
 //@   define rz() = min(real(g.WURZ), g.GRW)
 //@   define wtop() = ite(zeit > g.BEGINN, g.WG[1][0]+g.WG[1][1]+g.WG[1][2], g.WG[0][0]+g.WG[0][1]+g.WG[0][2])
 //@   requires[C08] air: g.LUKRIT[g.INTWICK.Index] > 0 || (g.LUKRIT[g.INTWICK.Index] == 0 && g.N >= 3 && g.PORGES[0]+g.PORGES[1]+g.PORGES[2] >= wtop())
-//@   after stmt "LURMAX := LUPOR / g.LUKRIT[g.INTWICK.Index]": assert[C01,C08] lurmax: 0 <= LURMAX && LURMAX <= 1 && 0 <= g.LUMDAY && g.LUMDAY <= 4
-//@   before stmt "for i := 0; i < g.N; i++ { if float64(i+1) > math.Min(": assert[C01,C08] lured: 0 <= g.LURED && g.LURED <= 1
-//@   before stmt "for i := 0; i < g.N; i++ { if float64(i+1) > math.Min(": assert[C01,C08] tramax: TRAMAX >= 0
+//@   after stmt "LURMAX := LUPOR / g.LUKRIT[g.INTWICK.Index]": assert[C08] lurmax: 0 <= LURMAX && LURMAX <= 1 && 0 <= g.LUMDAY && g.LUMDAY <= 4
+//@   before stmt "for i := 0; i < g.N; i++ { if float64(i+1) > math.Min(": assert[C08] lured: 0 <= g.LURED && g.LURED <= 1
+//@   before stmt "for i := 0; i < g.N; i++ { if float64(i+1) > math.Min(": assert[C08] tramax: TRAMAX >= 0
 //@   ensures[C01] flux: g.FLUSS0 == g.REGEN[tag()] - g.ETA
 //@   ensures[C01] startcopy: zeit > g.BEGINN ==> forall(i, 0, g.N, g.WG[0][i] == old(g.WG[1][i]))
 //@   ensures[C01] keep: g.WG[1] == old(g.WG[1]) && g.REGEN == old(g.REGEN)
 //@   ensures[C08] petcap: 0 <= pet() && pet() <= ite(cropped(), 0.65, 0.6)
 //@   ensures[C08] evap: 0 <= g.ETA && g.ETA <= pet()
 //@   ensures[C08] rootzone: forall(i, 0, g.N, real(i+1) > rz() ==> g.TP[i] == 0)
-//@   ensures[C01,C08] uptakesign: forall(i, 0, g.N, g.TP[i] >= 0)
-//@   ensures[C01,C08] gwsupply: l.GWAUF >= 0
+//@   ensures[C08] uptakesign: forall(i, 0, g.N, g.TP[i] >= 0)
+//@   ensures[C08] gwsupply: l.GWAUF >= 0
 //@   ensures[C08] etrel: 0 <= g.ETREL && g.ETREL <= 1
 //@   ensures[C08] trrel: 0 <= g.TRREL
 //@   ensures[C08] lured: cropped() ==> 0 <= g.LURED && g.LURED <= 1
@@ -382,19 +383,19 @@ package hermes
 //@ loop Evatra#7
 //@   invariant range: 0 <= \i && \i <= g.N
 //@   invariant[C08] zero: forall(j, 0, \i, real(j+1) > rz() ==> g.TP[j] == 0)
-//@   invariant[C01,C08] sign: forall(j, 0, \i, g.TP[j] >= 0)
+//@   invariant[C08] sign: forall(j, 0, \i, g.TP[j] >= 0)
 //@ loop Evatra#8
 //@   invariant range: 1 <= \i && \i <= g.N+1
 //@   invariant[C08] zero: forall(j, 0, g.N, real(j+1) > rz() ==> g.TP[j] == 0)
-//@   invariant[C01,C08] sign: forall(j, 0, g.N, g.TP[j] >= 0)
-//@   invariant[C01,C08] acc: TPAKT >= 0 && l.GWAUF >= 0
+//@   invariant[C08] sign: forall(j, 0, g.N, g.TP[j] >= 0)
+//@   invariant[C08] acc: TPAKT >= 0 && l.GWAUF >= 0
 //@ loop Evatra#9
 //@   invariant range: i+1 <= \i && \i <= g.N+1
 //@   invariant[C08] zero: forall(j, 0, g.N, real(j+1) > rz() ==> g.TP[j] == 0)
-//@   invariant[C01,C08] sign: forall(j, 0, g.N, g.TP[j] >= 0)
+//@   invariant[C08] sign: forall(j, 0, g.N, g.TP[j] >= 0)
 //@ loop Evatra#10
 //@   invariant range: 0 <= \i && \i <= g.N
-//@   invariant[C01,C08] zero: forall(j, 0, \i, g.TP[j] == 0)
+//@   invariant[C08] zero: forall(j, 0, \i, g.TP[j] == 0)
 //@ loop Evatra#1
 //@   invariant range: 0 <= \i && \i <= g.N
 //@   invariant copied: forall(j, 0, \i, g.WG[0][j] == old(g.WG[1][j]))
@@ -415,3 +416,137 @@ package hermes
 //@   trusted
 //@   ensures factors: forall(m, 0, 12, g.FKF[m] >= 0 && g.FKU[m] >= 0)
 //@   modifies g.FKF, g.FKU
+
+// Telescoping: the per-layer law of Water/post:balance sums to the profile law of the statement
+// (capacity expansion over the 21 declared layer slots; S = storage in cm, U = uptake*wdt, Q = inter-layer fluxes).
+//@ lemma C01-telescoping
+//@   serves C01
+//@   var n int
+//@   var dd int
+//@   var S1 []real
+//@   var S0 []real
+//@   var U []real
+//@   var Q []real
+//@   var a0 real
+//@   var drain real
+//@   assume 1 <= n && n <= 20
+//@   assume drain == 0 || (1 <= dd && dd <= n)
+//@   assume forall(k, 0, n, S1[k] == S0[k] - U[k] + ite(k == 0, a0, Q[k]) - Q[k+1] - ite(k+1 == dd, drain, 0.0))
+//@   prove profile: sum(k, 0, n, 21, S1[k]) == sum(k, 0, n, 21, S0[k]) - sum(k, 0, n, 21, U[k]) + a0 - Q[n] - drain
+
+// Day law: sub-steps of equal length wdt each obeying the sub-step law add up to the daily law, for any number of
+// sub-steps (induction step over the step count m; the base case m = 0 is the identity). flux0/up are the day's
+// surface flux and total uptake rate (constant over the day: Water/post:surface, post:uptake), bsum/dsum the accumulated
+// bottom and drain fluxes, t the accumulated step length (HermesSession.Run$1#substeps/post:day gives t == 1 at the end).
+//@ lemma C01-day-step
+//@   serves C01
+//@   var stor0 real
+//@   var storm real
+//@   var storm1 real
+//@   var flux0 real
+//@   var up real
+//@   var wdt real
+//@   var t real
+//@   var bsum real
+//@   var dsum real
+//@   var b real
+//@   var d real
+//@   assume storm == stor0 + flux0*t - up*t - bsum - dsum
+//@   assume storm1 == storm + flux0*wdt - up*wdt - b - d
+//@   prove step: storm1 == stor0 + flux0*(t+wdt) - up*(t+wdt) - (bsum+b) - (dsum+d)
+//@   prove fullday: t + wdt == 1 ==> storm1 == stor0 + flux0 - up - (bsum+b) - (dsum+d)
+
+// ---------------------------------------------------------------------------
+// C01  adaptive sub-daily time stepping in the day loop of Run: the sub-steps of a day add up to exactly one day
+// (ghost wsum accumulates the step length handed to Water), every call of Water gets a legal step.
+//@ region HermesSession.Run$1#substeps from "FSCS := 0.0" to "for SUBD := 1; SUBD <= int(STEPS); SUBD++ {"
+//@   serves C01
+//@   opaque Soiltemp PhytoOut Nitro
+//@   ghost var wsum real
+//@   ghost var ncalls int
+//@   at call Water: ghost wsum = wsum + arg0
+//@   at call Water: ghost ncalls = ncalls + 1
+//@   ghost var nsteps int
+//@   after stmt "WDT = 1 / math.Ceil(ZSR)": ghost nsteps = ceil(ZSR)
+//@   after stmt "WDT = 1 / math.Ceil(ZSR)": assert wdt: WDT*real(nsteps) == 1 && nsteps >= 1
+//@   requires layers: 1 <= g.N && g.N <= 20
+//@   requires units: g.DZ.Num == 10 && g.DT.Num == 1
+//@   requires day: 0 <= g.TAG.Index && g.TAG.Index < 366
+//@   requires soil: forall(k, 0, g.N, g.W[k] > 0)
+//@   requires outn: 0 <= g.OUTN && g.OUTN <= g.N
+//@   requires drain: 0 <= g.DRAIFAK && g.DRAIFAK <= 1
+//@   ensures day: wsum == old(wsum) + g.DT.Num
+//@   ensures count: ncalls - old(ncalls) >= 1 && real(ncalls - old(ncalls))*WDT == g.DT.Num
+//@ loop HermesSession.Run$1@"for I := 1; I <= g.N; I++ { index := I - 1 FSC :="
+//@   invariant range: 1 <= \i && \i <= g.N+1
+//@ loop HermesSession.Run$1@"for I := 1; I <= g.N; I++ { index := I - 1 if g.REGEN[g.TAG.Index]-FSCSUM[index]"
+//@   invariant range: 1 <= \i && \i <= g.N+1
+//@   invariant zsr: ZSR >= 1
+//@ loop HermesSession.Run$1@"for SUBD := 1; SUBD <= int(STEPS); SUBD++ {"
+//@   invariant range: 1 <= \i && real(\i) <= STEPS + 1
+//@   invariant steps: WDT*real(nsteps) == 1 && nsteps >= 1 && STEPS == real(nsteps) && 0 < WDT && WDT <= 1
+//@   invariant sum: wsum == pre(wsum) + real(\i-1)*WDT
+//@   invariant calls: ncalls == pre(ncalls) + \i - 1
+//@   invariant frame: g.N == pre(g.N) && g.DZ.Num == 10 && g.DT.Num == 1 && g.OUTN == pre(g.OUTN) && g.DRAIFAK == pre(g.DRAIFAK)
+
+// ---------------------------------------------------------------------------
+// C02 / C07  nitrogen transport of one sub-step (convection-dispersion, uptake, leaching)
+// conc(z): concentration of layer z (1-based; 0 above the surface and below the profile), defined from the state;
+// Fc(z): convective N flux through the lower boundary of layer z (upstream concentration), dr(z): N leaving through the drain,
+// J(k): dispersive flux from layer index k to k+1.
+//@ func nmove
+//@   serves C02, C07
+//@   define pe(k) = max(0.0, min(old(g.PE[k]), old(g.C1[k]) - 0.5))
+//@   define c1a(k) = ite(subd == 1, ite(old(g.C1[k]) - pe(k) < 0, 0.0, old(g.C1[k]) - pe(k)), old(g.C1[k]))
+//@   define vol(k) = g.WG[0][k]*g.DZ.Num*100
+//@   define conc(z) = max(0.0, (c1a(z-1) + g.DN[z-1]*wdt/2)/vol(z-1))
+//@   define C(z) = Carray[z]
+//@   define Fc(z) = ite(g.Q1[z] >= 0, C(z)*g.Q1[z], ite(z == 0, 0.0, C(z+1)*g.Q1[z]))
+//@   define dr(z) = ite(z == g.DRAIDEP, C(z)*g.QDRAIN, 0.0)
+//@   define J(k) = ite(k < 0 || k >= g.N-1, 0.0, l.DB[k]*(C(k+1)-C(k+2))/100)
+//@   define cK(k) = (C(k+1)*g.WG[0][k] + l.DISP[k] - l.KONV[k])*g.DZ.Num*100
+//@   requires layers: 2 <= g.N && g.N <= 20
+//@   requires units: g.DZ.Num == 10
+//@   requires step: 0 < wdt && wdt <= 1
+//@   requires outn: 1 <= g.OUTN && g.OUTN <= g.N
+//@   requires drain: 0 <= g.DRAIDEP && g.DRAIDEP <= 21
+//@   requires crop: 0 <= g.AKF.Index && g.AKF.Index < 300
+//@   requires water: forall(k, 0, g.N+1, g.WG[0][k] > 0)
+//@   requires surfacedrain: g.QDRAIN == 0 || g.FLUSS0 > 0
+//@   ensures[C02.a] concdef: C(0) == 0 && C(g.N+1) == 0 && forall(z, 1, g.N+1, C(z) == conc(z))
+//@   ensures[C02] konv: forall(z, 1, g.N+1, l.KONV[z-1]*g.DZ.Num == Fc(z) - Fc(z-1) + dr(z))
+//@   ensures[C02] disp: forall(k, 0, g.N, l.DISP[k] == J(k-1) - J(k))
+//@   ensures[C02] update: forall(k, 0, g.N, g.C1[k] == max(0.0, max(0.0, cK(k)) + g.DN[k]*wdt/2))
+//@   ensures[C02] noloss: forall(k, 0, g.N, g.C1[k] >= c1a(k) + g.DN[k]*wdt + (l.DISP[k] - l.KONV[k])*g.DZ.Num*100)
+//@   ensures[C02] leaching: g.OUTN == g.N ==> g.OUTSUM == old(g.OUTSUM) + 100*Fc(g.N)
+//@   ensures[C02] drainloss: g.DRAINLOSS == old(g.DRAINLOSS) + 100*g.QDRAIN*C(g.DRAIDEP)
+//@   ensures[C02,C07] uptake: g.AUFNASUM == old(g.AUFNASUM) + ite(subd == 1, sum(k, 0, g.N, 21, pe(k)), 0.0)
+//@   ensures[C02,C07] uptakeonce: subd != 1 ==> forall(k, 0, g.N, g.PE[k] == old(g.PE[k]))
+//@   ensures[C02,C07] taken: subd == 1 ==> forall(k, 0, g.N, g.PE[k] == pe(k))
+//@   ensures[C02.b] flag: iff(g.C1NotStable != "", exists(k, 0, g.N, cK(k) < 0 && cK(k) < g.C1stabilityVal))
+//@   ensures[C07] nonneg: forall(k, 0, g.N, g.C1[k] >= 0)
+//@   ensures[C07] cropn: g.PESUM == old(g.PESUM) + ite(subd == 1, sum(k, 0, g.N, 21, pe(k)) + ite(zeit >= g.SAAT[g.AKF.Index] && zeit <= g.ERNTE2[g.AKF.Index], g.SCHNORR, 0.0), 0.0)
+//@   ensures frame: unchanged(g.DN, g.WG, g.QDRAIN, g.FLUSS0) && forall(z, 1, 22, g.Q1[z] == old(g.Q1[z]))
+//@ loop nmove#1
+//@   invariant range: 0 <= \i && \i <= g.N
+//@   invariant top: Carray[0] == 0 && forall(j, \i+1, 22, Carray[j] == 0)
+//@   invariant[C02.a] conc: forall(j, 1, \i+1, Carray[j] == conc(j))
+//@   invariant[C02] lift: forall(j, 0, \i, Carray[j+1]*vol(j) >= g.C1[j] + g.DN[j]*wdt/2 && Carray[j+1] >= 0)
+//@   invariant c1: forall(j, 0, \i, g.C1[j] == c1a(j)) && forall(j, \i, 21, g.C1[j] == old(g.C1[j]))
+//@   invariant pe: forall(j, 0, \i, g.PE[j] == ite(subd == 1, pe(j), old(g.PE[j]))) && forall(j, \i, 21, g.PE[j] == old(g.PE[j]))
+//@   invariant[C02,C07] sums: g.AUFNASUM == old(g.AUFNASUM) + ite(subd == 1, sum(k, 0, \i, 21, pe(k)), 0.0)
+//@   invariant[C07] psum: g.PESUM == old(g.PESUM) + ite(subd == 1, sum(k, 0, \i, 21, pe(k)), 0.0)
+//@ loop nmove#2
+//@   invariant range: 0 <= \i && \i <= g.N
+//@   invariant[C02] disp: forall(k, 0, \i, l.DISP[k] == J(k-1) - J(k))
+//@   invariant[C02] db: forall(k, \i, 21, l.DB[k] == pre(l.DB[k]))
+//@ loop nmove#3
+//@   invariant range: 1 <= \i && \i <= g.N+1
+//@   invariant[C02] konv: forall(z, 1, \i, l.KONV[z-1]*g.DZ.Num == Fc(z) - Fc(z-1) + dr(z))
+//@ loop nmove#4
+//@   invariant range: 0 <= \i && \i <= g.N
+//@   invariant mid: forall(k, 0, \i, g.C1[k] == max(0.0, cK(k))) && forall(k, \i, 21, g.C1[k] == pre(g.C1[k]))
+//@   invariant[C02.b] flag: iff(g.C1NotStable != "", exists(k, 0, \i, cK(k) < 0 && cK(k) < g.C1stabilityVal))
+//@ loop nmove#5
+//@   invariant range: 0 <= \i && \i <= g.N
+//@   invariant fin: forall(k, 0, \i, g.C1[k] == max(0.0, pre(g.C1[k]) + g.DN[k]*wdt/2)) && forall(k, \i, 21, g.C1[k] == pre(g.C1[k]))
